@@ -149,6 +149,74 @@ fn persist_job(cli: &str, work: &str, id: &str, text: &str) -> Value {
            "reexport_exit": reexport_exit, "hash_before": h1, "hash_after": h2, "changed_existing": changed})
 }
 
+/// a whole session in one directory, step by step against CliFs!FsAfter: random invocations (plain / --import, with or
+/// without --export) over two ADF sources, names that do not exist yet, names that do (an earlier export, a source file
+/// itself, a file that is neither) - after every invocation the directory is fingerprinted
+fn fs_session(rng: &mut StdRng, cli: &str, work: &str, id: &str) -> Value {
+    let dir = format!("{}/fs_{}", work, id);
+    let _ = std::fs::remove_dir_all(&dir);
+    std::fs::create_dir_all(&dir).unwrap();
+    let (na, nb) = (rng.gen_range(1..=4), rng.gen_range(1..=4));
+    let ta = rand_adf(rng, na, format!("{}a", id)).text();
+    let tb = rand_adf(rng, nb, format!("{}b", id)).text();
+    std::fs::write(format!("{}/a.adf", dir), &ta).unwrap();
+    std::fs::write(format!("{}/b.adf", dir), &tb).unwrap();
+    std::fs::write(format!("{}/note.txt", dir), "not an adf, not a state\n").unwrap();
+    let run = |args: &[String]| -> (i32, Vec<String>) {
+        match std::process::Command::new(cli).args(args).current_dir(&dir).env_remove("RUST_LOG").env("RUST_BACKTRACE", "0").output() {
+            Ok(o) => (o.status.code().unwrap_or(-1), String::from_utf8_lossy(&o.stdout).lines().map(|s| s.to_string()).collect()),
+            Err(_) => (-99, vec![]),
+        }
+    };
+    let snapshot = |dir: &str| -> Value {
+        let mut m = serde_json::Map::new();
+        if let Ok(rd) = std::fs::read_dir(dir) {
+            let mut names: Vec<_> = rd.flatten().map(|e| e.path()).filter(|p| p.is_file()).collect();
+            names.sort();
+            for p in names {
+                m.insert(p.file_name().unwrap().to_string_lossy().to_string(), json!(sha(&p.to_string_lossy())));
+            }
+        }
+        Value::Object(m)
+    };
+    let sem = ["--grd", "--com", "--stm"];
+    // reference answers of the two sources
+    let mut refs = serde_json::Map::new();
+    for src in ["a.adf", "b.adf"] {
+        let mut a: Vec<String> = vec![src.into(), "--lib".into(), "naive".into()];
+        a.extend(sem.iter().map(|x| x.to_string()));
+        refs.insert(src.to_string(), json!(run(&a).1));
+    }
+    let init = snapshot(&dir);
+    let names = ["s1.json", "s2.json", "s1", "s1.json.bak", "note.txt", "a.adf", "b.adf"];
+    let mut steps: Vec<Value> = Vec::new();
+    for _ in 0..rng.gen_range(4..=8) {
+        let existing: Vec<String> = std::fs::read_dir(&dir).map(|rd| rd.flatten().map(|e| e.file_name().to_string_lossy().to_string()).collect()).unwrap_or_default();
+        let imp = rng.gen_bool(0.4);
+        let src: String = if imp {
+            // mostly an exported state if there is one, sometimes something that is not
+            let exports: Vec<&String> = existing.iter().filter(|n| !["a.adf", "b.adf", "note.txt"].contains(&n.as_str())).collect();
+            if !exports.is_empty() && rng.gen_range(0..10) < 8 { exports[rng.gen_range(0..exports.len())].clone() } else { names[rng.gen_range(0..names.len())].to_string() }
+        } else {
+            ["a.adf", "b.adf"][rng.gen_range(0..2)].to_string()
+        };
+        let exp: String = if rng.gen_range(0..10) < 7 { names[rng.gen_range(0..names.len())].to_string() } else { String::new() };
+        let mut a: Vec<String> = vec![src.clone(), "--lib".into(), "naive".into()];
+        if imp {
+            a.push("--import".into());
+        }
+        if !exp.is_empty() {
+            a.push("--export".into());
+            a.push(exp.clone());
+        }
+        a.extend(sem.iter().map(|x| x.to_string()));
+        let (exit, out) = run(&a);
+        steps.push(json!({"src": src, "imp": imp, "exp": exp, "exit": exit, "out": out, "fs": snapshot(&dir)}));
+    }
+    let _ = std::fs::remove_dir_all(&dir);
+    json!({"kind": "cli_fs", "id": id, "texts": {"a.adf": ta, "b.adf": tb}, "refs": Value::Object(refs), "init": init, "steps": steps})
+}
+
 pub fn main(args: &[String]) {
     let mut tier = "quick".to_string();
     let mut out = String::new();
@@ -237,7 +305,11 @@ pub fn main(args: &[String]) {
         let case = rand_adf(&mut rng, n, format!("p{}", k));
         writeln!(f, "{}", persist_job(&cli, &work, &format!("p{}", k), &case.text())).unwrap();
     }
+    let nfs = if tier == "thorough" { 150 } else { 30 };
+    for k in 0..nfs {
+        writeln!(f, "{}", fs_session(&mut rng, &cli, &work, &format!("f{}", k))).unwrap();
+    }
     f.flush().unwrap();
-    eprintln!("cli: {} launches + {} persistence scenarios", jobs.len(), np);
+    eprintln!("cli: {} launches + {} persistence scenarios + {} directory sessions", jobs.len(), np, nfs);
     std::process::exit(0);
 }
